@@ -180,12 +180,15 @@ func RunCheck(prop string, opt CheckOptions) *CheckResult {
 	var slowest []oblReport
 	assumedExt := map[string]bool{}
 	nObl, nDis := 0, 0
-	type reachFail struct{ name, why string }
+	type reachFail struct {
+		name, why string
+		fc        *FuncContract
+	}
 	var reachFails []reachFail
 	samples := []any{}
 	if err != nil {
 		// the tree does not load (type errors in code or contracts): every claimed function is out of reach
-		reachFails = append(reachFails, reachFail{prop + "/load", err.Error()})
+		reachFails = append(reachFails, reachFail{prop + "/load", err.Error(), nil})
 	} else {
 		// select contract blocks
 		want := map[string]bool{}
@@ -215,7 +218,7 @@ func RunCheck(prop string, opt CheckOptions) *CheckResult {
 		}
 		for c := range want {
 			if c != "*" && !found[c] {
-				reachFails = append(reachFails, reachFail{c + "/reach", "no contract block / function of that name in the current tree"})
+				reachFails = append(reachFails, reachFail{c + "/reach", "no contract block / function of that name in the current tree", nil})
 			}
 		}
 		sort.Slice(fcs, func(i, j int) bool { return e.fnKey(fcs[i]) < e.fnKey(fcs[j]) })
@@ -230,7 +233,7 @@ func RunCheck(prop string, opt CheckOptions) *CheckResult {
 			if r.Err != nil {
 				fu["error"] = r.Err.Error()
 				notReach = append(notReach, r.Key+": "+r.Err.Error())
-				reachFails = append(reachFails, reachFail{r.Key + "/reach", r.Err.Error()})
+				reachFails = append(reachFails, reachFail{r.Key + "/reach", r.Err.Error(), fc})
 			}
 			funcsUnder = append(funcsUnder, fu)
 			for _, a := range r.Assumed {
@@ -307,7 +310,7 @@ func RunCheck(prop string, opt CheckOptions) *CheckResult {
 		}
 		for _, ex := range pc.Expected {
 			if _, ok := have[ex]; !ok {
-				reachFails = append(reachFails, reachFail{ex + "/reach", "expected obligation is no longer generated from the current tree"})
+				reachFails = append(reachFails, reachFail{ex + "/reach", "expected obligation is no longer generated from the current tree", nil})
 			}
 		}
 		// a few obligations written out
@@ -384,9 +387,28 @@ func RunCheck(prop string, opt CheckOptions) *CheckResult {
 	}
 	for _, rf := range reachFails {
 		violations++
-		fn := writeReplay(rf.name, map[string]any{"property": prop, "obligation": rf.name, "status": "no-input", "found_by": "none",
-			"solver_output": rf.why, "note": "the claimed function/obligation cannot be brought under the verifier on the current tree, so the claim cannot be upheld"})
-		say("VIOLATION property=%s replay=%s no-failing-input-found", prop, fn)
+		body := map[string]any{"property": prop, "obligation": rf.name, "status": "no-input", "found_by": "none",
+			"solver_output": rf.why, "note": "the claimed function/obligation cannot be brought under the verifier on the current tree, so the claim cannot be upheld"}
+		suffix := " no-failing-input-found"
+		if rf.fc != nil && e != nil && !rf.fc.Lemma {
+			// the contract is still executable: search for an input that violates it on the real code
+			if e.ceCache == nil {
+				e.ceCache = map[string]map[string]any{}
+			}
+			ce, ok := e.ceCache[rf.fc.Key]
+			if !ok {
+				ce = e.findCounterexample(rf.fc, opt)
+				e.ceCache[rf.fc.Key] = ce
+			}
+			for k, x := range ce {
+				body[k] = x
+			}
+			if ce != nil && ce["status"] == "confirmed" {
+				suffix = ""
+			}
+		}
+		fn := writeReplay(rf.name, body)
+		say("VIOLATION property=%s replay=%s%s", prop, fn, suffix)
 	}
 
 	// ---- evidence ----
